@@ -39,7 +39,8 @@ BUDGET = {'quick': 55, 'thorough': 700}
 QUOTA = {'quick': 12, 'thorough': 320}
 REQUIRED = {'quick': {'evaluations': 300, 'streams': 150, 'data_messages_compared': 300, 'defined_elements_used': 600,
                       'defined_sequences_used': 150, 'replication_only_sequences_used': 30, 'multi_definition_streams': 40,
-                      'redefinitions': 15, 'standard_descriptors_alongside': 200, 'negative_scale_or_reference': 100},
+                      'redefinitions': 15, 'standard_descriptors_alongside': 200, 'negative_scale_or_reference': 100,
+                      'redefinition_only_messages': 10, 'nested_rep_only_used': 5},
             'thorough': {'evaluations': 8000, 'streams': 4000, 'data_messages_compared': 8000, 'defined_elements_used': 15000,
                          'defined_sequences_used': 4000, 'replication_only_sequences_used': 800, 'multi_definition_streams': 1000,
                          'redefinitions': 400, 'standard_descriptors_alongside': 5000, 'negative_scale_or_reference': 2500}}
@@ -130,7 +131,7 @@ def new_element(rng, used):
     return eid, (name, unit, scale, ref, width)
 
 
-def new_sequence(rng, used_d, elems, seqs, std):
+def new_sequence(rng, used_d, elems, seqs, std, rep_only=()):
     for _ in range(100):
         sid = 300000 + rng.randint(48, 63) * 1000 + rng.randint(1, 255)
         if sid not in used_d:
@@ -147,8 +148,17 @@ def new_sequence(rng, used_d, elems, seqs, std):
                 members.append(rng.choice(elems))
             elif rr < 0.65:
                 members.append(rng.choice(std))
-            elif rr < 0.75 and seqs:
+            elif rr < 0.72 and seqs:
                 members.append(rng.choice(seqs))
+            elif rr < 0.80 and rep_only and elems:
+                # a replication-only sequence used INSIDE a sequence: it replicates the member that follows it
+                members += [rng.choice(sorted(rep_only)), rng.choice(elems + std + seqs)]
+            elif rr < 0.86 and seqs:
+                # fixed / delayed replication over a whole (defined) sequence
+                if rng.random() < 0.5:
+                    members += [101000 + rng.randint(1, 3), rng.choice(seqs)]
+                else:
+                    members += [101000, 31001, rng.choice(seqs)]
             elif rr < 0.88 and elems:
                 body = [rng.choice(elems + std) for _ in range(rng.randint(1, 2))]
                 members += [100000 + len(body) * 1000 + rng.randint(1, 3)] + body
@@ -184,8 +194,11 @@ def make_stream(ctx, k):
     ndefs = rng.choice([1, 1, 2, 2, 3])
     for di in range(ndefs):
         b_entries, d_entries = [], []
+        redef_only = di > 0 and elems and rng.random() < 0.35
+        if redef_only:
+            stats['redef_only'] = stats.get('redef_only', 0) + 1
         for _ in range(rng.randint(1, 6)):
-            if elems and rng.random() < 0.15:
+            if elems and (redef_only or rng.random() < 0.15):
                 eid = rng.choice(elems)          # redefinition of an earlier entry
                 _, ent = new_element(rng, set())
                 b_entries = [(e, v) for e, v in b_entries if e != eid]
@@ -195,9 +208,9 @@ def make_stream(ctx, k):
                 eid, ent = new_element(rng, set(B) | set(e for e, _ in b_entries))
                 b_entries.append((eid, ent))
         new_elems = [e for e, _ in b_entries]
-        for _ in range(rng.randint(0, 4)):
+        for _ in range(0 if redef_only else rng.randint(0, 4)):
             sid, ent, kind = new_sequence(rng, set(D) | set(s for s, _ in d_entries), elems + new_elems,
-                                          [s for s in seqs if s not in rep_only], std)
+                                          [s for s in seqs if s not in rep_only], std, rep_only)
             d_entries.append((sid, ent))
             if kind == 'rep-only':
                 rep_only.add(sid)
@@ -230,6 +243,14 @@ def make_stream(ctx, k):
                         ids.append(s)
                         if s in rep_only:
                             ids.append(rng.choice(elems + std))   # the descriptor it replicates
+                    elif rr < 0.7 and seqs:
+                        # replication (explicit members) over a defined sequence - preferably one that uses a
+                        # replication-only sequence inside
+                        cand = [x for x in seqs if x not in rep_only]
+                        inner = [x for x in cand if contains_rep_only(D[x], D, rep_only)]
+                        if cand:
+                            sq = rng.choice(inner) if inner and rng.random() < 0.7 else rng.choice(cand)
+                            ids += ([101000 + rng.randint(1, 3), sq] if rng.random() < 0.5 else [101000, 31001, sq])
                     elif rr < 0.8:
                         ids.append(rng.choice(std))
                     elif rr < 0.9:
@@ -263,6 +284,8 @@ def make_stream(ctx, k):
                 flat = list(ids)
                 msg.uses_seqs = sum(1 for i in ids if i in seqs)
                 msg.uses_rep_only = 1 if contains_rep_only(ids, D, rep_only) else 0
+                msg.nested_rep_only = 1 if any(i >= 300000 and i in D and i not in rep_only and contains_rep_only(D[i], D, rep_only)
+                                               for i in ids) else 0
                 msg.uses_std = sum(1 for s in msg.subsets[:1] for l in s.labels if l[0] == '0' and int(l[1:3]) < 48 and int(l[1:3]) != 31)
                 msg.negatives = sum(1 for s in msg.subsets[:1] for me, l in zip(s.meta, s.labels)
                                     if me and me[0] == 'n' and l[0] == '0' and 48 <= int(l[1:3]) <= 63 and (me[2] < 0 or me[3] < 0))
@@ -314,6 +337,7 @@ def run(ctx):
             if stats['defs'] > 1:
                 ctx.count('multi_definition_streams')
             ctx.count('redefinitions', stats['redefs'])
+            ctx.count('redefinition_only_messages', stats.get('redef_only', 0))
             multi = 'multi-def' if stats['defs'] > 1 else 'single-def'
             if out.get('error'):
                 ctx.evaluated(stream.hex(), True)
@@ -332,6 +356,7 @@ def run(ctx):
                 ctx.count('defined_elements_used', em.uses_elems)
                 ctx.count('defined_sequences_used', em.uses_seqs)
                 ctx.count('replication_only_sequences_used', em.uses_rep_only)
+                ctx.count('nested_rep_only_used', em.nested_rep_only)
                 ctx.count('standard_descriptors_alongside', em.uses_std)
                 ctx.count('negative_scale_or_reference', em.negatives)
                 ctx.evaluated((stream.hex(), mi), em.uses_elems + em.uses_seqs > 0,
